@@ -194,6 +194,7 @@ func (e *Exec) Run(query string, opName *string, vars map[string]interface{}) (*
 	if op == nil {
 		return errResp("operation not found"), nil, gqlerror.List{gqlerror.Errorf("operation not found")}
 	}
+	vars = WithDefaults(op, vars)
 	cv, err := validator.VariableValues(e.Schema, op, vars)
 	if err != nil {
 		return errResp("variables: " + err.Error()), op, gqlerror.List{gqlerror.Errorf("%s", err.Error())}
@@ -508,5 +509,47 @@ func SortedKeys(m map[string]bool) []string {
 		out = append(out, k)
 	}
 	sort.Strings(out)
+	return out
+}
+
+// ConstValue evaluates a constant value literal; unlike ast.Value.Value an empty list literal
+// stays an empty list (gqlparser turns it into a nil slice, i.e. JSON null).
+func ConstValue(v *ast.Value) interface{} {
+	switch v.Kind {
+	case ast.ListValue:
+		out := make([]interface{}, 0, len(v.Children))
+		for _, ch := range v.Children {
+			out = append(out, ConstValue(ch.Value))
+		}
+		return out
+	case ast.ObjectValue:
+		m := map[string]interface{}{}
+		for _, ch := range v.Children {
+			m[ch.Name] = ConstValue(ch.Value)
+		}
+		return m
+	}
+	x, err := v.Value(nil)
+	if err != nil {
+		return nil
+	}
+	return x
+}
+
+// WithDefaults returns the variables completed with the operation's declared defaults.
+func WithDefaults(op *ast.OperationDefinition, vars map[string]interface{}) map[string]interface{} {
+	out := map[string]interface{}{}
+	for k, v := range vars {
+		out[k] = v
+	}
+	for _, vd := range op.VariableDefinitions {
+		if vd.DefaultValue == nil {
+			continue
+		}
+		if _, ok := out[vd.Variable]; ok {
+			continue
+		}
+		out[vd.Variable] = ConstValue(vd.DefaultValue)
+	}
 	return out
 }
